@@ -19,18 +19,89 @@ Proof. unfold skip, usable, is_active. destruct (c_hasSel cf), (s_sel s); reflex
 Lemma filter_ext_eq {A} (f g : A -> bool) l : (forall x, f x = g x) -> filter f l = filter g l.
 Proof. intro H. induction l as [|x r IH]; cbn; [reflexivity|]. rewrite H, IH. reflexivity. Qed.
 
+(* ---------------------------------------------------------------- the 1-D pruning is harmless *)
+Definition same_dim (n : nat) (s : sample) : Prop := length (s_x s) = n.
+
+Lemma dot_self_nonneg v : 0 <= dot v v.
+Proof. induction v as [|x r IH]; cbn [dot]; [lra|nra]. Qed.
+Lemma g_d2_ge_dx1 d n a b : same_dim n a -> same_dim n b ->
+  (x1 b - x1 a) * (x1 b - x1 a) <= g_d2 (geo_pair d a b).
+Proof.
+  unfold same_dim, x1, geo_pair, geo_of. cbn [g_d2]. rewrite Qred_correct. intros Ha Hb.
+  destruct (s_x a) as [|xa ra]; destruct (s_x b) as [|xb rb]; cbn in *; try lra; try congruence.
+  pose proof (dot_self_nonneg (vsub rb ra)). nra.
+Qed.
+(* a pair whose first coordinates differ by more than maxdist adds nothing *)
+Lemma pair_updates_far cf d means n a b :
+  0 < d_dpas d -> 0 <= d_tol d -> same_dim n a -> same_dim n b ->
+  maxdist d < x1 b - x1 a \/ maxdist d < x1 a - x1 b -> pair_updates cf d means a b = [].
+Proof.
+  intros Hdp Htol Ha Hb Hfar.
+  pose proof (g_d2_ge_dx1 d n a b Ha Hb) as Hge.
+  assert (Hd2 : 0 <= g_d2 (geo_pair d a b)) by (apply (g_d2_nonneg d)).
+  assert (HL : lag_rank d (g_d2 (geo_pair d a b)) = None).
+  { destruct Hfar as [H|H].
+    - apply (beyond_maxdist_no_lag d Hdp Htol _ (x1 b - x1 a) Hd2 Hge H).
+    - apply (beyond_maxdist_no_lag d Hdp Htol _ (x1 a - x1 b) Hd2); [|exact H].
+      setoid_replace ((x1 a - x1 b) * (x1 a - x1 b)) with ((x1 b - x1 a) * (x1 b - x1 a)) by ring. exact Hge. }
+  unfold pair_updates. fold (geo_pair d a b). rewrite HL.
+  destruct (isOK d (is_asym (c_calc cf)) (geo_pair d a b)); [reflexivity|].
+  destruct (c_dateChk cf && negb (date_ok d a b)); reflexivity.
+Qed.
+
+(* what the evaluators add for the pairs actually visited = what they would add for all the pairs of the loop *)
+Lemma reached1_updates cf d means n l :
+  0 < d_dpas d -> 0 <= d_tol d -> Forall (same_dim n) l ->
+  flat_map (fun p => pair_updates cf d means (fst p) (snd p)) (reached1 cf d l) =
+  flat_map (fun p => pair_updates cf d means (fst p) (snd p))
+           (filter (unskipped cf) (loop_pairs (c_dateLoop cf) [] (sort_x1 l))).
+Proof.
+  intros Hdp Htol Hl. unfold reached1.
+  apply (outer1_P cf (maxdist d) (fun p => pair_updates cf d means (fst p) (snd p)) (same_dim n)).
+  - intros a b Ha Hb Hfar. cbn [fst snd]. apply (pair_updates_far cf d means n a b Hdp Htol Ha Hb Hfar).
+  - constructor.
+  - eapply Permutation_Forall; [symmetry; apply sort_perm|exact Hl].
+  - apply sort_sorted.
+Qed.
+
+Lemma unskipped_pair cf p : unskipped cf p = usable cf (fst p) && usable cf (snd p).
+Proof. unfold unskipped. rewrite !unskipped_usable. reflexivity. Qed.
+
 (* sum of a field over the updates of all reached pairs = sum over all pairs of usable samples of the sorted list *)
-Lemma fsum_reached1 ufld cf d means l k :
-  c_dateLoop cf = false -> 0 < d_dpas d -> 0 <= d_tol d ->
+Lemma fsum_reached1 ufld cf d means n l k :
+  c_dateLoop cf = false -> 0 < d_dpas d -> 0 <= d_tol d -> Forall (same_dim n) l ->
   fsum ufld k (flat_map (fun p => pair_updates cf d means (fst p) (snd p)) (reached1 cf d l))
   == pair_sum (fun a b => fsum ufld k (pair_updates cf d means a b)) (filter (usable cf) (sort_x1 l)).
 Proof.
-  intros Hd H1 H2. rewrite fsum_flat_map. rewrite (reached1_all_pairs cf d l Hd H1 H2).
-  unfold pair_sum.
+  intros Hd H1 H2 Hl. rewrite (reached1_updates cf d means n l H1 H2 Hl), Hd, loop_pairs_nodate.
+  rewrite fsum_flat_map. unfold pair_sum.
   rewrite (all_pairs_filter (usable cf) (sort_x1 l)).
-  rewrite (filter_ext_eq (unskipped cf) (fun p => usable cf (fst p) && usable cf (snd p))).
-  - reflexivity.
-  - intro p. unfold unskipped. rewrite !unskipped_usable. reflexivity.
+  rewrite (filter_ext_eq (unskipped cf) (fun p => usable cf (fst p) && usable cf (snd p)) _ (unskipped_pair cf)).
+  reflexivity.
+Qed.
+
+(* in date mode every pair is met in both orders *)
+Lemma filter_map_swap (t : sample -> bool) (ps : list (sample * sample)) :
+  filter (fun p => t (fst p) && t (snd p)) (map swap ps) = map swap (filter (fun p => t (fst p) && t (snd p)) ps).
+Proof.
+  induction ps as [|[a b] r IH]; [reflexivity|]. cbn [map filter swap fst snd].
+  rewrite (andb_comm (t b) (t a)). destruct (t a && t b); cbn [map swap fst snd]; rewrite IH; reflexivity.
+Qed.
+Lemma fsum_reached1_dates ufld cf d means n l k :
+  c_dateLoop cf = true -> 0 < d_dpas d -> 0 <= d_tol d -> Forall (same_dim n) l ->
+  fsum ufld k (flat_map (fun p => pair_updates cf d means (fst p) (snd p)) (reached1 cf d l))
+  == pair_sum (fun a b => fsum ufld k (pair_updates cf d means a b)) (filter (usable cf) (sort_x1 l)) +
+     pair_sum (fun a b => fsum ufld k (pair_updates cf d means b a)) (filter (usable cf) (sort_x1 l)).
+Proof.
+  intros Hd H1 H2 Hl. rewrite (reached1_updates cf d means n l H1 H2 Hl), Hd.
+  rewrite fsum_flat_map.
+  rewrite (filter_ext_eq (unskipped cf) (fun p => usable cf (fst p) && usable cf (snd p)) _ (unskipped_pair cf)).
+  rewrite (sumQ_perm _ (map (fun x => fsum ufld k (pair_updates cf d means (fst x) (snd x)))
+                            (filter (fun p => usable cf (fst p) && usable cf (snd p)) (ordered_pairs (sort_x1 l))))).
+  2:{ apply Permutation_map. apply filter_perm. apply loop_pairs_ordered. }
+  unfold ordered_pairs. rewrite filter_app, map_app, sumQ_app.
+  rewrite filter_map_swap, <- !(all_pairs_filter (usable cf) (sort_x1 l)).
+  unfold pair_sum. rewrite map_map. cbn [swap fst snd]. reflexivity.
 Qed.
 
 Lemma sumQ_flat_map_fst {A} (g : A -> list (Q * Q)) (h : A -> Q) (proj : Q * Q -> Q) l :
@@ -43,12 +114,10 @@ Qed.
 Section VgMain.
 Variables (cf : cfg) (d : dirp).
 Hypothesis Hcalc : c_calc cf = Vg.
-Hypothesis Hloop : c_dateLoop cf = false.
 Hypothesis Hchk : c_dateChk cf = false.
 Hypothesis Hdp : 0 < d_dpas d.
 Hypothesis Htol : 0 <= d_tol d.
 Hypothesis Hps0 : 0 <= d_psmin d.
-Hypothesis Hps1 : d_psmin d <= 1.
 Hypothesis Hcodir : 0 < Qred (dot (d_codir d) (d_codir d)).
 
 Lemma vg_sw_pair_sum iv jv k l :
@@ -56,6 +125,7 @@ Lemma vg_sw_pair_sum iv jv k l :
 Proof.
   unfold vg_sw, vg_terms, pair_sum.
   apply sumQ_flat_map_fst. intros [a b]. cbn [fst snd]. unfold vg_pair_sw.
+  rewrite (dchk_off cf d a b Hchk), andb_true_r.
   destruct (pair_in d k a b); [|reflexivity].
   destruct (defined2 a b iv jv) as [[[[z11 z12] z21] z22]|]; cbn; ring.
 Qed.
@@ -64,6 +134,7 @@ Lemma vg_num_pair_sum iv jv k l :
 Proof.
   unfold vg_num, vg_terms, pair_sum.
   apply sumQ_flat_map_fst. intros [a b]. cbn [fst snd]. unfold vg_pair_num.
+  rewrite (dchk_off cf d a b Hchk), andb_true_r.
   destruct (pair_in d k a b); [|reflexivity].
   destruct (defined2 a b iv jv) as [[[[z11 z12] z21] z22]|]; cbn; ring.
 Qed.
@@ -73,17 +144,18 @@ Lemma vg_sums_perm iv jv k l l' :
   Permutation l l' -> vg_sw cf d iv jv k l == vg_sw cf d iv jv k l' /\ vg_num cf d iv jv k l == vg_num cf d iv jv k l'.
 Proof.
   intro Hp. rewrite !vg_sw_pair_sum, !vg_num_pair_sum. split.
-  - apply pair_sum_perm; [intros a b; apply vg_pair_sw_swap|apply filter_perm; exact Hp].
-  - apply pair_sum_perm; [intros a b; apply vg_pair_num_swap|apply filter_perm; exact Hp].
+  - apply pair_sum_perm; [intros a b; apply vg_pair_sw_swap; exact Hchk|apply filter_perm; exact Hp].
+  - apply pair_sum_perm; [intros a b; apply vg_pair_num_swap; exact Hchk|apply filter_perm; exact Hp].
 Qed.
 
 (* raw accumulators of solution 1 = pairwise sums over the data in their original order *)
-Lemma accumulate1_vg l iv jv k :
+Lemma accumulate1_vg n l iv jv k :
+  c_dateLoop cf = false -> Forall (same_dim n) l ->
   (jv <= iv)%nat -> (iv < c_nvar cf)%nat -> (k < d_npas d)%nat ->
   let c := nth (dir_address false (d_npas d) iv jv k Ozero) (accumulate1 cf d l) cell0 in
   a_sw c == vg_sw cf d iv jv k l /\ a_glo c == vg_num cf d iv jv k l /\ a_ghi c == vg_num cf d iv jv k l.
 Proof.
-  intros Hj Hi Hk. cbv zeta.
+  intros Hloop Hdim Hj Hi Hk. cbv zeta.
   unfold accumulate1, zero_arr. rewrite Hcalc. cbn [is_asym].
   set (adr := dir_address false (d_npas d) iv jv k Ozero).
   assert (Hadr : (adr < dir_size false (d_npas d) (c_nvar cf))%nat) by (apply sym_address_bound; assumption).
@@ -92,14 +164,54 @@ Proof.
   cbn [spec_cell a_sw a_glo a_ghi] in S1, S4, S5.
   rewrite S1, S4, S5. unfold sum_sw, sum_glo, sum_ghi.
   change (sumQ (map ?f (at_addr adr ?us))) with (fsum f adr us).
-  rewrite !(fsum_reached1 _ cf d _ l adr Hloop Hdp Htol).
+  rewrite !(fsum_reached1 _ cf d _ n l adr Hloop Hdp Htol Hdim).
   pose proof (sort_perm l) as Hp.
   destruct (vg_sums_perm iv jv k _ _ Hp) as [P1 P2].
   rewrite <- P1, <- P2. rewrite vg_sw_pair_sum, vg_num_pair_sum.
   repeat split; apply sumQ_map_ext; intros [a b] _; cbn [fst snd];
-    destruct (vg_pair_fields cf d Hcalc Hchk Hdp Hps0 Hcodir (stat_means cf l) a b iv jv k Hj Hi Hk) as (F1 & F2 & F3); assumption.
+    destruct (vg_pair_fields cf d Hcalc Hdp Hps0 Hcodir (stat_means cf l) a b iv jv k Hj Hi Hk) as (F1 & F2 & F3); assumption.
 Qed.
 End VgMain.
+
+(* date mode: every ordered pair (a, b), a <> b, passing the date test date(b) - date(a) in [dmin, dmax) *)
+Definition opair_sum {A} (f : A -> A -> Q) (l : list A) : Q := pair_sum f l + pair_sum (fun a b => f b a) l.
+Lemma pair_sum_plus {A} (f g : A -> A -> Q) l : pair_sum f l + pair_sum g l == pair_sum (fun a b => f a b + g a b) l.
+Proof.
+  unfold pair_sum. induction (all_pairs l) as [|p r IH]; [reflexivity|].
+  cbn [map]. rewrite !sumQ_cons, <- IH. ring.
+Qed.
+Lemma opair_sum_perm {A} (f : A -> A -> Q) l l' : Permutation l l' -> opair_sum f l == opair_sum f l'.
+Proof.
+  intro Hp. unfold opair_sum. rewrite !pair_sum_plus.
+  apply pair_sum_perm; [intros a b; ring|exact Hp].
+Qed.
+
+Lemma accumulate1_vg_dates cf d n l iv jv k :
+  c_calc cf = Vg -> c_dateLoop cf = true ->
+  0 < d_dpas d -> 0 <= d_tol d -> 0 <= d_psmin d -> 0 < Qred (dot (d_codir d) (d_codir d)) ->
+  Forall (same_dim n) l ->
+  (jv <= iv)%nat -> (iv < c_nvar cf)%nat -> (k < d_npas d)%nat ->
+  let c := nth (dir_address false (d_npas d) iv jv k Ozero) (accumulate1 cf d l) cell0 in
+  a_sw c == opair_sum (vg_pair_sw cf d iv jv k) (filter (usable cf) l) /\
+  a_glo c == opair_sum (vg_pair_num cf d iv jv k) (filter (usable cf) l) /\
+  a_ghi c == opair_sum (vg_pair_num cf d iv jv k) (filter (usable cf) l).
+Proof.
+  intros Hcalc Hloop Hdp Htol Hps0 Hcodir Hdim Hj Hi Hk. cbv zeta.
+  unfold accumulate1, zero_arr. rewrite Hcalc. cbn [is_asym].
+  set (adr := dir_address false (d_npas d) iv jv k Ozero).
+  assert (Hadr : (adr < dir_size false (d_npas d) (c_nvar cf))%nat) by (apply sym_address_bound; assumption).
+  destruct (apply_upds_sums _ (flat_map (fun p => pair_updates cf d (stat_means cf l) (fst p) (snd p)) (reached1 cf d l)) adr Hadr)
+    as (S1 & _ & _ & S4 & S5).
+  cbn [spec_cell a_sw a_glo a_ghi] in S1, S4, S5.
+  rewrite S1, S4, S5. unfold sum_sw, sum_glo, sum_ghi.
+  change (sumQ (map ?f (at_addr adr ?us))) with (fsum f adr us).
+  rewrite !(fsum_reached1_dates _ cf d _ n l adr Hloop Hdp Htol Hdim).
+  assert (Hp : Permutation (filter (usable cf) (sort_x1 l)) (filter (usable cf) l)) by (apply filter_perm; apply sort_perm).
+  rewrite <- !(opair_sum_perm _ _ _ Hp). unfold opair_sum, pair_sum.
+  repeat split; (apply Qplus_comp; apply sumQ_map_ext; intros [a b] _; cbn [fst snd]);
+    try (destruct (vg_pair_fields cf d Hcalc Hdp Hps0 Hcodir (stat_means cf l) a b iv jv k Hj Hi Hk) as (F1 & F2 & F3); assumption);
+    destruct (vg_pair_fields cf d Hcalc Hdp Hps0 Hcodir (stat_means cf l) b a iv jv k Hj Hi Hk) as (F1 & F2 & F3); assumption.
+Qed.
 
 (* ---------------------------------------------------------------- translation *)
 Section Translation.
@@ -137,29 +249,44 @@ Proof.
 Qed.
 
 Definition trp (p : sample * sample) : sample * sample := (tr (fst p), tr (snd p)).
-Lemma inner_translate cf md a js : dim_ok a -> Forall dim_ok js ->
-  inner cf md (tr a) (map tr js) = map trp (inner cf md a js).
+Lemma qltb_translate md a b : dim_ok a -> dim_ok b -> qltb md (x1 (tr b) - x1 (tr a)) = qltb md (x1 b - x1 a).
+Proof.
+  intros Ha Hb. pose proof (x1_translate_diff b a Hb Ha) as E.
+  destruct (qltb_spec md (x1 (tr b) - x1 (tr a))), (qltb_spec md (x1 b - x1 a)); try reflexivity; exfalso; lra.
+Qed.
+Lemma inner_after_translate cf md a js : dim_ok a -> Forall dim_ok js ->
+  inner_after cf md (tr a) (map tr js) = map trp (inner_after cf md a js).
 Proof.
   intros Ha Hj. induction Hj as [|b r Hb Hr IH]; [reflexivity|].
-  cbn [map inner].
-  assert (E : qltb md (x1 (tr a) - x1 (tr b)) = qltb md (x1 a - x1 b)).
-  { pose proof (x1_translate_diff a b Ha Hb) as E.
-    destruct (qltb_spec md (x1 (tr a) - x1 (tr b))), (qltb_spec md (x1 a - x1 b)); try reflexivity; exfalso; lra. }
-  rewrite E. destruct (qltb md (x1 a - x1 b)); [reflexivity|].
+  cbn [map inner_after]. rewrite (qltb_translate md a b Ha Hb).
+  destruct (qltb md (x1 b - x1 a)); [reflexivity|].
   change (skip cf (tr b)) with (skip cf b).
   destruct (skip cf b); cbn [map]; rewrite IH; reflexivity.
 Qed.
-Lemma outer1_translate cf md all cur : Forall dim_ok all -> Forall dim_ok cur ->
-  outer1 cf md (map tr all) (map tr cur) = map trp (outer1 cf md all cur).
+Lemma inner_before_translate cf md a js : dim_ok a -> Forall dim_ok js ->
+  inner_before cf md (tr a) (map tr js) = map trp (inner_before cf md a js).
 Proof.
-  intros Hall Hcur. induction Hcur as [|a rest Ha Hr IH]; [reflexivity|].
-  cbn [map outer1]. destruct rest as [|b rest']; [reflexivity|].
-  cbn [map] in *. rewrite map_app. rewrite IH. f_equal.
+  intros Ha Hj. induction Hj as [|b r Hb Hr IH]; [reflexivity|].
+  cbn [map inner_before]. rewrite (qltb_translate md b a Hb Ha).
+  destruct (qltb md (x1 a - x1 b)); [exact IH|].
+  change (skip cf (tr b)) with (skip cf b).
+  destruct (skip cf b); cbn [map]; rewrite IH; reflexivity.
+Qed.
+Lemma partners_translate cf md pre a rest : dim_ok a -> Forall dim_ok pre -> Forall dim_ok rest ->
+  partners cf md (map tr pre) (tr a) (map tr rest) = map trp (partners cf md pre a rest).
+Proof.
+  intros Ha Hp Hr. unfold partners. rewrite map_app, (inner_after_translate cf md a rest Ha Hr).
+  destruct (c_dateLoop cf); [rewrite (inner_before_translate cf md a pre Ha Hp)|]; reflexivity.
+Qed.
+Lemma outer1_translate cf md pre cur : Forall dim_ok pre -> Forall dim_ok cur ->
+  outer1 cf md (map tr pre) (map tr cur) = map trp (outer1 cf md pre cur).
+Proof.
+  intros Hpre Hcur. revert pre Hpre. induction Hcur as [|a rest Ha Hr IH]; intros pre Hpre; [reflexivity|].
+  cbn [map outer1]. rewrite map_app.
+  assert (Hpre' : Forall dim_ok (pre ++ [a])) by (apply Forall_app; split; [exact Hpre|constructor; [exact Ha|constructor]]).
+  rewrite <- (IH (pre ++ [a]) Hpre'). rewrite map_app. cbn [map]. f_equal.
   change (skip cf (tr a)) with (skip cf a).
-  destruct (skip cf a); [reflexivity|].
-  destruct (c_dateLoop cf).
-  - apply inner_translate; assumption.
-  - apply (inner_translate cf md a (b :: rest')); assumption.
+  destruct (skip cf a); [reflexivity|]. apply partners_translate; assumption.
 Qed.
 
 Lemma pair_updates_translate cf d means a b : dim_ok a -> dim_ok b ->
@@ -192,7 +319,7 @@ Proof. revert l. induction n as [|n IH]; intro l; [reflexivity|]. destruct l; cb
 Lemma stat_means_translate cf l : stat_means cf (map tr l) = stat_means cf l.
 Proof.
   unfold stat_means. apply map_ext. intro iv. unfold stat_mean.
-  rewrite firstn_map, (filter_translate (is_active cf)) by reflexivity.
+  rewrite (filter_translate (is_active cf)) by reflexivity.
   rewrite !fold_left_translate by reflexivity. reflexivity.
 Qed.
 Lemma gstats_translate cf l iv jv : gstats cf (map tr l) iv jv = gstats cf l iv jv.
@@ -201,8 +328,8 @@ Proof. unfold gstats. apply fold_left_translate. reflexivity. Qed.
 Lemma reached1_dims cf d l p : Forall dim_ok l -> In p (reached1 cf d l) -> dim_ok (fst p) /\ dim_ok (snd p).
 Proof.
   intros Hl Hin. unfold reached1 in Hin.
-  apply (outer1_sound cf (maxdist d) (sort_x1 l) (sort_x1 l) p (fun x H => H)) in Hin.
-  destruct Hin as (A & B & _).
+  apply (outer1_sound cf (maxdist d) [] (sort_x1 l) p) in Hin.
+  destruct Hin as (A & B & _). cbn [app] in B.
   pose proof (sort_dim l Hl) as Hs. rewrite Forall_forall in Hs. split; apply Hs; assumption.
 Qed.
 
@@ -211,7 +338,7 @@ Proof.
   intro Hl. unfold solution1, accumulate1, finish.
   rewrite stat_means_translate.
   assert (E : reached1 cf d (map tr l) = map trp (reached1 cf d l)).
-  { unfold reached1. rewrite (sort_translate l Hl). apply outer1_translate; apply sort_dim; exact Hl. }
+  { unfold reached1. rewrite (sort_translate l Hl). apply (outer1_translate cf (maxdist d) []); [constructor|apply sort_dim; exact Hl]. }
   rewrite E. rewrite flat_map_trp.
   - apply map_ext. intros [iv jv]. rewrite gstats_translate. reflexivity.
   - apply Forall_forall. intros p Hp. apply (reached1_dims cf d l p Hl Hp).
